@@ -409,6 +409,7 @@ func (tps *TPS) waitForCommitmentDistribution(ctx context.Context) error {
 			return ctx.Err()
 		}
 
+		verifPark(tps.Party, "commits")
 		tps.signal.Wait()
 	}
 
@@ -424,6 +425,7 @@ func (tps *TPS) waitForDeCommitmentDistribution(ctx context.Context) error {
 			return ctx.Err()
 		}
 
+		verifPark(tps.Party, "reveals")
 		tps.signal.Wait()
 	}
 
@@ -487,6 +489,7 @@ func (tps *TPS) waitForShareDistribution(ctx context.Context) error {
 			return ctx.Err()
 		}
 
+		verifPark(tps.Party, "shares")
 		tps.signal.Wait()
 	}
 
